@@ -9,6 +9,24 @@ class CMakeSyntaxError(SyntaxError):
     pass
 
 
+class LexerErrorListener(ErrorListener):
+    """
+    Listens for lexer errors and raises exceptions when they occur.
+    Without it the lexer only prints characters it cannot tokenize
+    and skips them, so the parser sees a different file.
+    """
+
+    def syntaxError(self, recognizer, offendingSymbol, line, column, msg, e):
+        """
+        :raises CMakeSyntaxError: Always. This is not an Antlr4 RecognitionException
+                                  because the parser would try to recover from those.
+        """
+        s = CMakeSyntaxError()
+        s.lineno = f"{line}:{column}"
+        s.msg = msg
+        raise s
+
+
 class ParserErrorListener(ErrorListener):
     """
     Listens for parser errors and raises exceptions when they occur.
